@@ -50,6 +50,12 @@ def catalogue():
     add("enum-maximum_bits-65", "enum Ee:\n  [maximum_bits: 65]\n  AA = 0\n", False)
     add("enum-field-wider-than-maximum_bits", "enum Ee:\n  [maximum_bits: 8]\n  AA = 1\nstruct Foo:\n  0 [+2]  Ee  x\n", False)
     add("enum-field-at-maximum_bits", "enum Ee:\n  [maximum_bits: 16]\n  AA = 1\nstruct Foo:\n  0 [+2]  Ee  x\n", True)
+    # the same short name for two different types: each use is judged against its own type
+    add("same-named-nested-enums-wide-then-narrow", "struct Aa:\n  enum Kind:\n    [maximum_bits: 16]\n    XX = 1\n  0 [+2]  Kind  k\nstruct Bb:\n  enum Kind:\n    [maximum_bits: 8]\n    YY = 1\n  0 [+2]  Kind  k\n", False)
+    add("same-named-nested-enums-both-fit", "struct Aa:\n  enum Kind:\n    [maximum_bits: 16]\n    XX = 1\n  0 [+2]  Kind  k\nstruct Bb:\n  enum Kind:\n    [maximum_bits: 8]\n    YY = 1\n  0 [+1]  Kind  k\n", True)
+    add("same-field-twice-second-too-wide", "enum Ee:\n  [maximum_bits: 8]\n  AA = 1\nstruct Foo:\n  0 [+1]  Ee  x\n  1 [+2]  Ee  y\n", False)
+    add("same-size-different-scalar-types", "struct Foo:\n  0 [+4]  UInt  x\n  4 [+4]  Float  y\n  8 [+3]  UInt  z\n", True)
+    add("same-size-float-after-uint-bad", "struct Foo:\n  0 [+3]  UInt  x\n  3 [+3]  Float  y\n", False)
     # arrays
     add("array-auto-outermost", "struct Foo:\n  0 [+8]  UInt:8[2][]  x\n", True)
     add("array-auto-inner", "struct Foo:\n  0 [+8]  UInt:8[][2]  x\n", False)
@@ -92,10 +98,58 @@ def run_case(case):
         return (name, src, want, None, "", traceback.format_exc()[-500:])
 
 
+def frame_obligations(run):
+    """assigns-clauses of the rule functions in constraints.py (vlib/frame.py): every rule writes only its `errors`
+    argument, and check_constraints / check_early_constraints hand the traversal no other shared object - so the
+    verdict on one declaration cannot depend on which other declarations were checked before it."""
+    import ast
+    import os
+    from vlib import frame
+    path = os.path.join(core.REPO, "compiler/front_end/constraints.py")
+    tree = ast.parse(open(path).read())
+    module_names = set()
+    for n in tree.body:
+        if isinstance(n, (ast.Assign, ast.AnnAssign)):
+            for t in (n.targets if isinstance(n, ast.Assign) else [n.target]):
+                module_names |= {x.id for x in ast.walk(t) if isinstance(x, ast.Name)}
+    fns = [n for n in tree.body if isinstance(n, ast.FunctionDef)]
+    if len(fns) < 20 or not any(f.name == "check_constraints" for f in fns):
+        raise core.CheckerError("anchor mismatch: constraints.py does not look as expected (%d functions)" % len(fns))
+    cache_fns = {"_initialize_reserved_word_list", "get_reserved_word_list"}     # one-time load of the reserved-word file into a module cache
+    for f in fns:
+        if f.name in cache_fns:
+            continue
+        found = frame.analyse(f, allowed=("errors",), module_names=module_names)
+        nm = "frame.constraints.%s.assigns-only-errors" % f.name
+        run.add(core.Obligation(nm, core.PROVED if not found else core.REFUTED, "frame(ast)", 0.0,
+                                model={"findings": ["line %d: %s" % x for x in found]} if found else None,
+                                detail="; ".join("line %d: %s" % x for x in found)[:400]))
+        run.function("compiler.front_end.constraints." + f.name, "frame: syntactic write-set analysis of the real AST (assigns only `errors`)")
+    # the drivers pass only the fresh error list (and the in_attribute marker) to the traversal
+    for drv in ("check_constraints", "check_early_constraints"):
+        f = [x for x in fns if x.name == drv][0]
+        bad = []
+        n_calls = 0
+        for c in ast.walk(f):
+            if isinstance(c, ast.Call) and "traverse_ir" in ast.unparse(c.func):
+                n_calls += 1
+                for kw in c.keywords:
+                    if kw.arg == "parameters":
+                        if not isinstance(kw.value, ast.Dict) or any(not isinstance(k_, ast.Constant) or k_.value not in ("errors", "in_attribute") for k_ in kw.value.keys):
+                            bad.append("line %d: traversal parameters %s" % (c.lineno, ast.unparse(kw.value)))
+                    elif kw.arg not in ("incidental_actions", "skip_descendants_of"):
+                        bad.append("line %d: unexpected traversal argument %s" % (c.lineno, kw.arg))
+        if n_calls == 0:
+            raise core.CheckerError("anchor mismatch: %s makes no traverse_ir call" % drv)
+        run.add(core.Obligation("frame.constraints.%s.traversals-share-only-errors" % drv, core.PROVED if not bad else core.REFUTED, "frame(ast)", 0.0,
+                                model={"findings": bad} if bad else None, detail="%d traversals; %s" % (n_calls, "; ".join(bad)[:300])))
+
+
 def main(args):
     run = core.Run("C14", args.tier, "proof", "./check C14 --tier " + args.tier)
     from contracts import layout
     pool.run_targets(run, "contracts.layout", list(layout.TARGETS))
+    frame_obligations(run)
     for f in ("_check_that_enum_values_are_representable", "_check_size_of_bits", "_check_physical_type_requirements (enum branch)"):
         run.function("compiler.front_end.constraints." + f, "pyvc: body executed symbolically against sidecar contract (contracts/layout.py)")
     cs = catalogue()
